@@ -829,7 +829,7 @@ pub fn run(ctx: &mut Ctx, reg: &Registry) {
     }
     // (b) random trees up to ~60 nodes, including trait / closure / future nodes
     let mut rng = Rng::derive(ctx.seed, &format!("c13/{}", ctx.shard));
-    let n = ctx.t(1500, 20000) / ctx.nshards.max(1);
+    let n = ctx.t(6000, 20000) / ctx.nshards.max(1);
     let mut made = 0;
     while made < n {
         let t = random_tree(&mut rng, 0);
